@@ -176,7 +176,6 @@ package dtlshandshake
 //@ ensures error-is-zero-transition: result1 != nil ==> result0.state == StateErrored
 //@ end
 
-
 //@ func fsm13.handleReceivedFlight
 //@ watch handleRetransmitTimeout fsm13.transitionAfterACK fsm13.handlePreviousFlightRetransmit handshakeContext.parseReceivedFlight handshakeContext.advanceAfterReceivedFlight
 //@ requires args: s != nil && s.cfg != nil && s.state != nil && ownConn(conn) && !isNil(ctx)
